@@ -18,6 +18,7 @@ type C28Scn struct {
 	Port    int      `json:"port"`
 	Debug   bool     `json:"debug"`
 	Segment bool     `json:"segment"`
+	RpcFrag uint64   `json:"rpc_frag,omitempty"` // != 0: calls are sent as multi-fragment records
 	LatMs   int      `json:"latency_ms"`
 	Sched   SchedCfg `json:"sched"`
 }
@@ -25,9 +26,12 @@ type C28Scn struct {
 func init() {
 	Register(&Prop{
 		ID: "C28", Level: "exploration",
-		Rule: "one case = (start-up path in {AbsfsNFS.Export, NewServer+Listen with record marking, StartWithPortmapper}, port 0 or explicit, debug on/off, transport segmentation/latency, schedule seed); non-trivial = the server started and the client completed the write of its NULL call; distinct by event digest",
+		Rule: "one case = (start-up path in {AbsfsNFS.Export, NewServer+Listen with record marking, StartWithPortmapper}, port 0 or explicit, debug on/off, transport segmentation/latency, calls sent as single-fragment records or (40%) split into up to 12 record-marking fragments incl. empty ones, schedule seed); non-trivial = the server started and the client completed the write of its NULL call; distinct by event digest",
 		Gen: func(r *simrt.Rand, tier string) any {
 			sc := &C28Scn{Path: []string{"export", "listen_rm", "portmapper"}[r.Int(3)], Debug: r.Pct(30), Segment: r.Pct(50), LatMs: r.Int(3) * r.Int(20)}
+			if r.Pct(40) {
+				sc.RpcFrag = 1 + r.Uint64()%1000000
+			}
 			if r.Pct(50) {
 				sc.Port = 2049 + r.Int(5)
 			}
@@ -116,6 +120,9 @@ func runC28(t *testing.T, scAny any, trace bool) *Outcome {
 		}
 		w.Port = port
 		cl, err := w.Dial("127.0.0.1:800", RootCred, &simrt.ConnFaults{Segment: sc.Segment, Latency: time.Duration(sc.LatMs) * time.Millisecond})
+		if err == nil {
+			cl.FragSeed = sc.RpcFrag
+		}
 		if err != nil {
 			o.Vio("C28.dial-failed", "path="+sc.Path, "cannot connect to port %d: %v", port, err)
 			return
